@@ -154,7 +154,8 @@ def oracle(sc, res, rng_seed=0):
     if est in ("multi_taper_psd", "multi_taper_csd") and sc.get("adaptive"):
         p = S.mt_parts(sc, res)
         if p is not None:
-            y = np.asarray(p["y"]).reshape(p["M"], p["K"], -1)
+            y = np.asarray(p["y"])
+            y = y.reshape(p["M"], -1, y.shape[-1])
             L = rows.shape[-1]
             ind = np.abs(y[..., :L]) ** 2
             if L < y.shape[-1]:
@@ -189,6 +190,14 @@ def oracle(sc, res, rng_seed=0):
                 fails.append(Fail(key_for(sc, "scale"), "density of a*x is not |a|^2 times the density of x",
                                   {"a": str(a), "log2|a|": float(np.log2(abs(a))), "relative_deviation": e}, "|a|^2 scaling"))
                 break
+    # ---- memory layout: the same values Fortran-ordered / strided / as a transposed view
+    if sc.get("layout") not in (None, "C"):
+        rc = S.run_scenario(variant(sc, layout="C"))
+        if rc["err"] is None:
+            ok, e = close_arr(res["out"], rc["out"])
+            if not ok:
+                fails.append(Fail("C04/%s/layout" % est, "result depends on the memory layout of the input (%s vs C order)" % sc["layout"],
+                                  {"relative_deviation": e}, "same result as for the C-ordered copy"))
     # ---- one-sided = folded two-sided
     if est != "welch" and not sc.get("use_sk"):
         r1 = S.run_scenario(variant(sc, sides="onesided"))
@@ -251,7 +260,10 @@ def analyzer_oracle(ctx, n_cases):
                 r = S.run_scenario(sc)
                 if r["err"] is not None:
                     continue
-                nb, want = n, [float(v) for v in mt_expected_power(sc, r)]
+                wp = mt_expected_power(sc, r)
+                if wp is None:
+                    continue
+                nb, want = n, [float(v) for v in wp]
             else:
                 nb = 64
                 want = []
@@ -301,12 +313,23 @@ def gen_all(ctx):
     rng = ctx.rng
     q = ctx.quick
     scs = corpus_scenarios("C04")
-    for _ in range(ctx.scale(60, 400)):
+    for _ in range(ctx.scale(50, 400)):
         scs.append(S.gen_scenario(rng, "periodogram", nmax=64 if q else 256, max_ch=rng.choice([1, 2, 3, 5])))
-    for _ in range(ctx.scale(24, 150)):
+    for _ in range(ctx.scale(18, 150)):
         scs.append(S.gen_scenario(rng, "multi_taper_psd", nmax=32 if q else 96, max_ch=rng.choice([1, 2, 3, 4]) if q else 5))
     for _ in range(ctx.scale(12, 100)):
         scs.append(S.gen_scenario(rng, "periodogram_csd", nmax=24 if q else 64, max_ch=4 if q else 5))
+    # Fortran-ordered / strided / transposed-view inputs with two or more leading dimensions
+    for _ in range(ctx.scale(4, 30)):
+        scs.append(S.gen_scenario(rng, rng.choice(["periodogram", "multi_taper_psd", "multi_taper_psd", "periodogram_csd"]),
+                                  nmax=14 if q else 40, lead=rng.choice([[2, 3], [3, 2], [2, 2], [2, 1, 3]]),
+                                  layout=rng.choice(S.LAYOUTS)))
+    # option-sibling sequences (one option changed between two calls on the same signal, then the first again)
+    for _ in range(ctx.scale(3, 15)):
+        scs += S.gen_siblings(rng, "multi_taper_psd", nmax=20 if q else 48, max_ch=2 if q else 4, opt="low_bias")
+    for _ in range(ctx.scale(5, 30)):
+        scs += S.gen_siblings(rng, rng.choice(["multi_taper_psd", "multi_taper_psd", "periodogram", "periodogram_csd"]),
+                              nmax=20 if q else 48, max_ch=2 if q else 4)
     for _ in range(ctx.scale(8, 40)):
         sc = S.gen_welch(rng)
         if len(sc["shape"]) > 1:
@@ -324,14 +347,25 @@ def run(ctx):
     bad = S.run_k(ctx, cases + aux)
     nv_ok = nv_bad = 0
     ctx.extra["skipped_dpss_windows_exception"] = sum(1 for c in cases if c.res["err"] is not None and S.err_in_dpss(c.res["err"]))
+    not_seen = 0
     for i, c in enumerate(cases):
         a, b = validate_fft(c.res["rec"])
         nv_ok += a
         nv_bad += b
-        for f in oracle(c.sc, c.res, rng_seed=i):
-            f.replay = {"entry_point": "nitime.algorithms.spectral." + ("get_spectra" if c.sc["est"] == "welch" else c.sc["est"]),
-                        "model_disagrees": id(c) in bad, "case_index": i}
-            ctx.report_fail(f, c)
+        ep = "nitime.algorithms.spectral." + ("get_spectra" if c.sc["est"] == "welch" else c.sc["est"])
+        if c.sc["est"].startswith("multi_taper") and c.res["err"] is None and not c.res["rec"].dpss:
+            not_seen += 1
+        try:
+            fl = oracle(c.sc, c.res, rng_seed=i)
+        except Exception as e:  # noqa  (a crash of the oracle on some input is reported with that input)
+            fl = [Fail("C04/%s/oracle-exception" % c.sc["est"], "the oracle could not judge this call: %r" % e, repr(e), "a verdict")]
+        for f in fl:
+            f.replay = {"entry_point": ep, "model_disagrees": id(c) in bad, "case_index": i}
+            ctx.report_fail(f, S.with_run_history(cases, i))
+    for f, c in S.purity_fails("C04", cases, ctx.scale(10, 60)):
+        f.replay = {"entry_point": "nitime.algorithms.spectral." + c.replay["scenario"]["est"]}
+        ctx.report_fail(f, c)
+    ctx.extra["multitaper_calls_without_a_dpss_windows_call"] = not_seen     # then the harness computed the tapers itself
     analyzer_oracle(ctx, ctx.scale(6, 40))
     ctx.extra["model_impl_disagreements"] = len(bad)
     ctx.extra["fft_contract_validations"] = {"ok": nv_ok, "failed": nv_bad}
@@ -364,14 +398,25 @@ def replay(ctx, path):
     if sc is None:
         print(json.dumps({"note": "no scenario in replay file (broken-lemma record)", "lemmas": d.get("lemmas")}, indent=1)[:3000])
         return 1
-    res = S.run_scenario(sc)
+    want_key = d.get("finding_key") or ""
+    if want_key.endswith("/history-dependence"):
+        hist = sc.get("history") or []
+        first = S.run_scenario(hist[0]) if hist else S.run_scenario(sc)
+        for h in hist[1:]:
+            S.run_scenario(h)
+        again = S.run_scenario(sc)
+        same = S.same_result(first, again)
+        print(json.dumps({"scenario": {k: v for k, v in sc.items() if k not in ("data", "history")},
+                          "calls_before": len(hist), "identical_result": same}, indent=1))
+        return 0 if same else 1
+    res = S.run_scenario(sc, with_history=True)
     fails = oracle(sc, res, rng_seed=d.get("case_index", 0))
-    want_key = d.get("finding_key")
     for i in range(5):
         if any(f.key == want_key for f in fails):
             break
         fails += oracle(sc, res, rng_seed=i)
-    print(json.dumps({"scenario": {k: v for k, v in sc.items() if k != "data"}, "shape": sc["shape"],
+    print(json.dumps({"scenario": {k: v for k, v in sc.items() if k not in ("data", "history")}, "shape": sc["shape"],
+                      "calls_before": len(sc.get("history") or []),
                       "fails": [{"key": f.key, "what": f.what, "observed": f.observed, "required": f.required} for f in fails]},
                      indent=1, default=str))
     return 1 if fails else 0
